@@ -33,13 +33,14 @@ Inductive ev :=
   | EvPeerClose             (* _handle_close: _close_internal *)
   | EvUnlink                (* _unlink (transport lost): _set_closed only *)
   | EvShutWrite             (* shutdown_write / shutdown(1|2): _send_eof *)
-  | EvPeerEof.              (* _handle_eof: eof_received only; nothing send looks at *)
+  | EvPeerEof               (* _handle_eof: eof_received only; nothing send looks at *)
+  | EvBoth (a b : ev).      (* two things happen, in this order, within one sleep of the sender / before one send *)
 
 Definition close_internal (c : chan) : chan :=
   (* if not self.active or self.closed: return; _send_eof(); _set_closed() *)
   if closed c then c else mkChan true true (window c) (maxpkt c) (timeout c).
 
-Definition apply_ev (e : ev) (c : chan) : chan :=
+Fixpoint apply_ev (e : ev) (c : chan) : chan :=
   match e with
   | EvAdjust n => mkChan (closed c) (eof_sent c) (window c + n) (maxpkt c) (timeout c)
   | EvClose => close_internal c
@@ -47,6 +48,7 @@ Definition apply_ev (e : ev) (c : chan) : chan :=
   | EvUnlink => if closed c then c else mkChan true (eof_sent c) (window c) (maxpkt c) (timeout c)
   | EvShutWrite => mkChan (closed c) true (window c) (maxpkt c) (timeout c)
   | EvPeerEof => c
+  | EvBoth a b => apply_ev b (apply_ev a c)
   end.
 
 Definition apply_evs (es : list ev) (c : chan) : chan := fold_left (fun c e => apply_ev e c) es c.
@@ -210,7 +212,8 @@ Definition run_send (x : (bool * chan) * (list Z * round)) : list Z :=
 (* ---- well-formedness used by the termination theorem ---------------------------------- *)
 (* window adjustments are uint32 (m.get_int()); out_max_packet_size went through
    Transport._sanitize_packet_size (>= 4096), so max - 64 > 0 *)
-Definition ev_ok (e : ev) : bool := match e with EvAdjust n => 0 <=? n | _ => true end.
+Fixpoint ev_ok (e : ev) : bool :=
+  match e with EvAdjust n => 0 <=? n | EvBoth a b => ev_ok a && ev_ok b | _ => true end.
 Definition wake_ok (w : wake) : bool := match fst w with Some e => ev_ok e | None => true end.
 Definition round_ok (r : round) : bool := forallb ev_ok (fst r) && forallb wake_ok (snd r).
 Definition chan_ok (c : chan) : bool := (0 <=? window c) && (64 <? maxpkt c).
